@@ -757,6 +757,50 @@ EXT = {
         level_note="; the Agent observation uses real sockets: a 2-minute patience or a transport error labels the case inconclusive, never a verdict",
     ),
 }
+# ---- rounds 3 and 4 (DESIGN.md 10.8, 10.9): further text per entry ------------------------------------------------
+EXT2 = {
+    "C01": dict(level_text=(" Part resub: observers re-use one client.Query value (ONCE then STREAM, reconnecting clients whose connection to the collector is cut), string queries with '/' in "
+                            "elements and key values; stream breaks made by the collector itself (receive_timeout after scripted silence, Collector.Reconnect) after which the target may lack units.")),
+    "C02": dict(level_text=(" Further generated dimensions: prefix and paths in independent encodings (structured, deprecated strings, both mixed, stray deprecated strings next to elem), absolute "
+                            "timestamps from the edges of the int64 range (scenarios without a future threshold), key names differing only in case, NaN/Inf/-0, odd element names, operations through "
+                            "the exported per-target entry points."),
+                level_note="; update paths never contain the string '*' (a stored literal '*' makes delete announcements inherently ambiguous) nor an origin of their own (DESIGN.md 10.7 (7))"),
+    "C03": dict(level_text=(" Further: the encodings, timestamps and values listed under C02; every notification handed over in the last 40 calls is compared with the clone taken before its call "
+                            "after every step (the cache may keep the caller's object but must not write to it later).")),
+    "C04": dict(level_text=(" Further: subscription paths unset / in the deprecated encoding / with per-path origins (incl. 'openconfig'), deprecated Update.value values, writer notifications in five "
+                            "path encodings, stream contexts carrying an RPC deadline, step wrace: a writer (Remove, Reset, delete) started on another goroutine while a subscription's walk is parked "
+                            "inside a queue insertion (inside the cache query's visitor, all walk locks held), released after a few hundred yields.")),
+    "C05": dict(level_text=(" Further: the subscription shapes listed under C04; an RPC may end with an error only for a reason the scenario gave (unknown target, ACL, invalid request, cancel, timeout); "
+                            "wrace steps for ONCE/POLL walks.")),
+    "C07": dict(level_text=(" Further: seven kinds of error values from the ACL backend (plain, gRPC status Unavailable/PermissionDenied/OK, wrapped, context.Canceled, empty text); grants that change "
+                            "while streams are open (judged as of the step in which the server handed the response to Send); the RPCACL double keeps the context it was created with and fails closed once it is done."),
+                level_note="; after a grant changed only the trace monitor applies (convergence is not defined then)"),
+    "C08": dict(level_text=" Further: atomic containers reported again and again in bursts (duplicate count of a coalesced multi-update leaf), stream contexts with an RPC deadline."),
+    "C09": dict(level_text=(" Further (random part): visits stopped by a visitor error after k invocations followed by structural writes, run under a structural blocked-call detector; path slices kept by "
+                            "Walk/WalkSorted visitors compared after the walk; every lookup through one re-used scratch slice; paths returned by Delete/DeleteConditional must be independent slices.")),
+    "C11": dict(level_text=(" Further: backlogs of 1000-9000 items worked down to fractions of their peak, a hot item inserted up to 70000 extra times, items of six kinds incl. the nil interface; stress: "
+                            "Close from several goroutines at once and Close under fire (every insertion that returned before Close was called is delivered). Part window: the consumer parked between "
+                            "its emptiness check and its select while inserts complete, the queue is closed and another goroutine holds the queue's mutex when it resumes; 24 repeats per case.")),
+    "C12": dict(level_text=" Part storm: one request (ONCE/POLL, failing or valid, optionally cancelled mid-answer) served 100-3200 times at once from 2-16 goroutines on the real scheduler against one server."),
+    "C13": dict(level_text=(" Part long: 20 ms-1 h retry profiles, up to 160 scripted attempts, failing streaks of 20-120 virtual minutes; error values shaped as gRPC produces them (status Canceled / "
+                            "DeadlineExceeded / Unavailable, wrapped, io.EOF) for every scripted failure and cancellation.")),
+    "C14": dict(level_text=" Further (subscribers part): wrace steps (see C04), stalled subscribers with partial credit across repeated Resets."),
+    "C15": dict(level_text=" Further: Add of an already registered name as one more fresh start (C15 profile only); the race part runs in three processes (first use of package-level state)."),
+    "C16": dict(level_text=" Further: dialer names (registered, unregistered, failing) as a generated dimension."),
+    "C17": dict(level_text=(" Parts degenerate (nil / empty request and credentials values, empty-but-present maps), alias (every message obtained from Current() and every rejected or superseded message is "
+                            "scribbled on afterwards; read-modify-write through Current()), overlap (2-3 loads in flight with load 0 parked inside its k-th handler; invocation-order replay equals Current(), "
+                            "each load's calls contiguous, results explained by one sequential order).")),
+    "C18": dict(level_text=(" Further: the query kind of every Subscribe (Stream, Poll, Once, Unknown, invalid queries). Part real: the real client/gnmi transport against an in-process gRPC server: "
+                            "set-ups that fail after a successful dial, traps that cancel or Close between dial, RPC start and first Send, repeated Subscribe/Close on one object."),
+                level_note="; in part real a call that does not return within 30 s of real time is inconclusive, never a violation"),
+    "C19": dict(level_text=" Further: every conversion is run twice on the same arguments before the concurrent phase (sequential determinism), which also catches conversions that modify their inputs."),
+    "C20": dict(level_text=(" Part edges: initial timestamps at the edges of the int64 range and at 31/32/62/63-bit distances, in every listing order. All parts: configurations dressed with the fields the "
+                            "target ignores and with the generator oneof (empty random{} block, mirrored seed/values); the Client's output equals queue.New's, a second Client on a deep-equal Config agrees.")),
+}
+for _pid, _ex in EXT2.items():
+    EXT.setdefault(_pid, {})
+    for _k, _v in _ex.items():
+        EXT[_pid][_k] = EXT[_pid].get(_k, "") + _v
 for _pid, _ex in EXT.items():
     for _k in ("technique", "level_text", "level_note", "rule"):
         if _k in _ex:
